@@ -273,59 +273,84 @@ def run(ctx, rep):
 
 
 def inode_trust_rule(P, rep, rid):
-    import re as _re
-    rep.rule(rid, 'inode trust: the conditions under which scan discards the recorded inodes (volatile inodes, changed UUID, unsupported UUID) are the same at the discarding site and in scan_file', 1)
-    def disk_flags(f, o, seen=None, depth=0):
-        """disk->has_* members an i1/i32 value depends on (through the short-circuit phis of a || / && chain)"""
-        seen = set() if seen is None else seen
-        o = f.strip(o)
-        res = set()
-        if o[0] != 'i' or o[1] in seen or depth > 12:
-            return res
-        seen.add(o[1])
-        i = f.insts[o[1]]
-        m_ = _re.search(r'disk->(has_\w+)$', f.expr(o)) if i.op == 'load' else None
-        if m_:
-            return {m_.group(1)}
-        if i.op == 'phi':
-            # the branch conditions of the predecessors take part in the value
-            for pb in i.inc:
-                t = f.term(pb)
-                if t.op == 'br' and len(t.ops) == 3:
-                    res |= disk_flags(f, t.ops[0], seen, depth + 1)
-        for a_ in i.ops:
-            res |= disk_flags(f, a_, seen, depth + 1)
-        return res
+    """move / restore detection by inode is sound only while the recorded inodes still mean something.  Two places decide that from
+    the disk flags: scan_disk discards the recorded inodes before the scan, scan_file computes whether a found inode may be trusted.
+    They must be the same boolean function: discard <=> not trusted.  Both decisions are evaluated (sa/booleval.py) for every
+    assignment of the disk->ha[sd]_* flags either of them reads -- a flag test added to one side only, or a condition weakened on
+    one side, shows as a disagreement on some assignment."""
+    import re as _re, itertools as _it
+    from .. import booleval as BE
+    rep.rule(rid, 'inode trust: scan_disk discards the recorded inodes exactly when scan_file does not trust them (the two decisions agree on every assignment of the disk flags they read)', 1)
+    ATOM = r'disk->(ha[sd]_\w+)$'
     sfile = P.fn('scan_file')
-    trust = set()
+    rep.analysed(sfile)
+    # the trust local of scan_file: the int local whose stored value depends on >= 2 disk flags
+    def flags_in(f, blocks):
+        fl = set()
+        for b in blocks:
+            for i in f.blocks[b]:
+                if i.op == 'load':
+                    m = _re.search(ATOM, f.expr(['i', i.id]))
+                    if m:
+                        fl.add(m.group(1))
+        return fl
+    trust_local = None; t_first = None; t_chain = []
     for i in sfile.all_insts():
-        if i.op == 'store' and sfile.inst_of(i.ops[1]) is not None and sfile.inst_of(i.ops[1]).op == 'alloca':
-            fl = disk_flags(sfile, i.ops[0])
-            if len(fl) >= 2:
-                trust |= fl
-    # the discarding site: the function (other than scan_file) that clears file->inode in a loop
-    disc = set(); where = None
+        if i.op == 'store' and sfile.inst_of(i.ops[1]) is not None and sfile.inst_of(i.ops[1]).op == 'alloca' and sfile.loop_of(i.block) is None:
+            # blocks that dominate the store and read flags
+            if not any(x[0] == 'mem' and _re.search(ATOM, x[1]) for x in sfile.value_sources(i.ops[0])):
+                continue
+            # the blocks of the short-circuit chain that computes the value: flag-reading blocks from which the store is reached
+            # without leaving the chain; the chain starts at the one that dominates the store
+            fb = {b for b in range(len(sfile.blocks)) if flags_in(sfile, [b])} | {i.block}
+            chain = []
+            for b0 in fb:
+                seen_ = {b0}; work = [b0]; hit = b0 == i.block
+                while work and not hit:
+                    x = work.pop()
+                    for s_ in sfile.succ[x]:
+                        if s_ == i.block:
+                            hit = True
+                            break
+                        if s_ in fb and s_ not in seen_:
+                            seen_.add(s_); work.append(s_)
+                if hit and flags_in(sfile, [b0]):
+                    chain.append(b0)
+            doms = [b for b in chain if sfile.bdominates(b, i.block)]
+            if len(flags_in(sfile, chain)) >= 2 and doms:
+                trust_local = i; t_first = min(doms); t_chain = list(chain)
+                break
+    where = None; d_first = None; d_loop = None
     for g_ in P.defined():
         if not (g_.file or '').endswith('scan.c') or g_ is sfile:
             continue
         for st_ in g_.all_insts():
             if st_.op == 'store' and g_.expr(st_.ops[1]).lstrip('&') == 'file->inode' and g_.const_of(st_.ops[0]) == 0 and g_.loop_of(st_.block) is not None:
-                where = g_
-                h_ = g_.loop_of(st_.block)
-                # conditions that decide whether the loop is entered: the cluster of flag tests (an || chain compiles to one branch per
-                # flag) that lies before the loop and from which the loop can be reached
-                pre = set()
-                for b in range(len(g_.blocks)):
-                    if b == h_ or b in g_.loops[h_]:
-                        continue
-                    t = g_.term(b)
-                    if t.op == 'br' and len(t.ops) == 3 and g_.blocks[h_][0].id in g_.reach([t]):
-                        fl = disk_flags(g_, t.ops[0])
-                        if fl and len(fl) == 1:
-                            # one of its outcomes enters the loop region without another flag test being able to veto it
-                            pre.add(b); disc |= fl
-    if not trust or where is None:
-        raise AnalysisBroken('inode trust sites not found (trust flags %s, discarding site %s)' % (sorted(trust), where and where.name))
-    rep.check(trust == disc, rid, 'scan_file and %s agree on when recorded inodes are not trusted' % base(where.name), where.file,
-              'both test %s' % sorted(trust) if trust == disc else 'scan_file tests %s, the discarding site tests %s: with the missing condition stale inode numbers stay in the inode set and an unrelated file can be taken as moved' % (sorted(trust), sorted(disc)),
+                where = g_; d_loop = g_.loop_of(st_.block)
+                cl = [b for b in range(len(g_.blocks)) if b != d_loop and b not in g_.loops[d_loop] and g_.term(b).op == 'br' and len(g_.term(b).ops) == 3
+                      and flags_in(g_, [b]) and g_.blocks[d_loop][0].id in g_.reach([g_.term(b)])
+                      and any(m_ for m_ in [_re.search(ATOM, g_.xexpr(g_.term(b).ops[0]).strip('()!').split('!=')[0].split('==')[0])] if m_)]
+                if cl:
+                    d_first = min(cl, key=lambda b: sum(1 for c2 in cl if g_.bdominates(c2, b)))
+    if trust_local is None or where is None or d_first is None:
+        raise AnalysisBroken('inode trust sites not found (trust local %s, discarding site %s)' % (trust_local is not None, where and where.name))
+    rep.analysed(where)
+    d_chain = [b for b in range(len(where.blocks)) if b != d_loop and b not in where.loops[d_loop] and flags_in(where, [b]) and where.term(b).op == 'br' and len(where.term(b).ops) == 3
+               and (b == d_first or where.bdominates(d_first, b)) and where.blocks[d_loop][0].id in where.reach([where.term(b)])]
+    atoms = sorted(flags_in(sfile, t_chain) | flags_in(where, d_chain))[:8]
+    bad = None
+    ta = sfile.strip(trust_local.ops[1])[1]
+    for vals in _it.product((0, 1), repeat=len(atoms)):
+        env = dict(zip(atoms, vals))
+        _, v1 = BE.walk(sfile, t_first, env, ATOM, stop_blocks=())
+        trusted = v1.get(('A', ta))
+        endb, _ = BE.walk(where, d_first, env, ATOM)
+        # the walk stops either in the block that starts the discarding loop or in the code behind it
+        discard = where.blocks[d_loop][0].id in where.reach([where.blocks[endb][0]], include_start=True)
+        if trusted is None:
+            raise AnalysisBroken('scan_file: trust value not evaluable for %s' % env)
+        if bool(discard) == bool(trusted) and bad is None:
+            bad = 'flags %s: scan_file %s the recorded inodes, %s %s them' % ({k: v for k, v in env.items() if v} or 'all clear', 'trusts' if trusted else 'does not trust', base(where.name), 'discards' if discard else 'keeps')
+    rep.check(bad is None, rid, 'scan_file and %s agree on when recorded inodes are not trusted' % base(where.name), where.file,
+              'agree on all %d assignments of %s' % (2 ** len(atoms), atoms) if bad is None else bad + ': stale inode numbers stay in the inode set while scan_file still uses them (or the reverse), an unrelated new file that reuses an inode is taken for a moved file and never read',
               function=base(where.name), construct='inode trust conditions')
